@@ -164,6 +164,7 @@ fn sorter_conf() -> BoxedStrategy<SConf> {
             interval: None,
             levels: None,
             creator: CreatorKind::Instrumented,
+            order: 0,
         })
         .boxed()
 }
@@ -205,6 +206,7 @@ pub fn miri_case() -> BoxedStrategy<Case> {
             interval: None,
             levels: Some(1),
             creator: CreatorKind::Instrumented,
+            order: 0,
         });
     let sorter = (conf, prop::sample::select(&MergeKind::ALL[..]), vec(size_spec(), 1..24), 0u8..3).prop_map(|(conf, kind, sizes, exit)| Case::Sorter { conf, kind, sizes, exit });
     let file = (
@@ -259,6 +261,93 @@ pub fn clone_outlives_original(bytes: &[u8], entries: &crate::common::Entries, s
         }
     }
     Ok(())
+}
+
+/// More than 1 GiB buffered in memory under a budget above 1 GiB (the buffer keeps growing past the default budget).
+/// Runs in a process of its own (`vcheck C17 --giant-buffer`): a memory error there may kill the process.
+pub fn giant_buffer_stage(out: &mut crate::runner::ExtraOut) {
+    let avail_kib: u64 = std::fs::read_to_string("/proc/meminfo")
+        .ok()
+        .and_then(|s| s.lines().find(|l| l.starts_with("MemAvailable:")).and_then(|l| l.split_whitespace().nth(1).and_then(|v| v.parse().ok())))
+        .unwrap_or(0);
+    if avail_kib < 24 * 1024 * 1024 {
+        out.counters.insert("giant_buffer_skipped_low_memory".into(), 1);
+        return;
+    }
+    let exe = match std::env::current_exe() {
+        Ok(e) => e,
+        Err(_) => return,
+    };
+    match std::process::Command::new(exe).args(["C17", "--giant-buffer"]).output() {
+        Ok(o) => {
+            let so = String::from_utf8_lossy(&o.stdout).to_string();
+            if o.status.success() && so.contains("GIANT-BUFFER-OK") {
+                out.evaluations += 1;
+                out.nontrivial += 1;
+                out.counters.insert("giant_buffer_checked".into(), 1);
+                out.samples.push(serde_json::json!({"kind": "giant-buffer", "budget": "3 GiB", "inserted": "2.4 GiB in 128 MiB values + small entries"}));
+            } else {
+                let se = String::from_utf8_lossy(&o.stderr);
+                let why = se.lines().rev().find(|l| !l.trim().is_empty()).unwrap_or("").to_string();
+                out.violations.push((
+                    Fail::new("c17:giant-buffer", format!("a sorter buffering more than 1 GiB died or failed (status {:?}): {} {}", o.status.code(), so.lines().last().unwrap_or(""), why)),
+                    serde_json::json!("GiantBuffer"),
+                ));
+            }
+        }
+        Err(e) => {
+            eprintln!("INCONCLUSIVE: cannot start the giant-buffer process: {e}");
+            out.inconclusive = true;
+        }
+    }
+}
+
+/// body of `vcheck C17 --giant-buffer`
+pub fn giant_buffer_main() -> i32 {
+    let r = crate::common::catch(|| -> Result<(), String> {
+        let mut b = grenad::Sorter::builder(MF::plain(MergeKind::Last)).chunk_creator(grenad::CursorVec);
+        b.dump_threshold(3usize << 30);
+        b.allow_realloc(true);
+        let mut s = b.build();
+        let big = vec![0x77u8; 128 << 20];
+        let mut keys: Vec<Vec<u8>> = Vec::new();
+        for i in 0..19u32 {
+            let k = format!("k{:03}", 50 - i).into_bytes();
+            s.insert(&k, &big).map_err(|e| format!("insert failed: {e}"))?;
+            keys.push(k.clone());
+            let small = format!("s{:03}", i).into_bytes();
+            s.insert(&small, [i as u8; 5]).map_err(|e| format!("insert failed: {e}"))?;
+            keys.push(small);
+        }
+        drop(big);
+        keys.sort();
+        let mut it = s.into_stream_merger_iter().map_err(|e| format!("into_stream_merger_iter failed: {e}"))?;
+        let mut got = Vec::new();
+        while let Some((k, v)) = it.next().map_err(|e| format!("next failed: {e}"))? {
+            if k.starts_with(b"k") && (v.len() != 128 << 20 || v.iter().step_by(4099).any(|b| *b != 0x77)) {
+                return Err("a 128 MiB value came back altered".into());
+            }
+            got.push(k.to_vec());
+        }
+        if got != keys {
+            return Err(format!("output keys differ: {} got, {} expected", got.len(), keys.len()));
+        }
+        Ok(())
+    });
+    match r {
+        Ok(Ok(())) => {
+            println!("GIANT-BUFFER-OK");
+            0
+        }
+        Ok(Err(m)) => {
+            println!("GIANT-BUFFER-FAIL {m}");
+            1
+        }
+        Err(p) => {
+            println!("GIANT-BUFFER-FAIL panic {p}");
+            1
+        }
+    }
 }
 
 /// `n` cases for the Miri stage, generated natively and deterministically from the seed.
@@ -440,6 +529,9 @@ impl Prop for C17 {
         let n: u32 = std::env::var("VERIF_MIRI_CASES").ok().and_then(|s| s.parse().ok()).unwrap_or(tier.pick(0, 480));
         if n > 0 {
             miri_stage(seed, n, ctx.threads, &mut out);
+        }
+        if tier == Tier::Thorough && out.violations.is_empty() && std::env::var("VERIF_NO_GIANT").is_err() {
+            giant_buffer_stage(&mut out);
         }
         out
     }
